@@ -149,10 +149,12 @@ where
     de_value!(i16);
     de_value!(i32);
     de_value!(i64);
+    de_value!(i128);
     de_value!(u8);
     de_value!(u16);
     de_value!(u32);
     de_value!(u64);
+    de_value!(u128);
     de_value!(f32);
     de_value!(f64);
     de_value!(char);
